@@ -117,11 +117,11 @@ def oracle(ctx, widened):
     big = widened or ctx.thorough
     ninst = 12 if big else 3
 
-    def cmp(op, inst, lab_date, lab_epoch, got, ref, vtol_scale=8000.0, extra=None, vel_rtol=0.0, dates=()):
+    def cmp(op, inst, lab_date, lab_epoch, got, ref, vtol_scale=8000.0, extra=None, vel_rtol=0.0, dates=(), pos_atol=0.0, vel_atol=0.0):
         """positions within |v| x 3 µs (UT1/TDB conversions are rounded to the µs) + 1e-6 m"""
         g, r = vec(got), vec(ref)
         slack = 3e-6 if ("UT1" in (lab_date, lab_epoch) or "TDB" in (lab_date, lab_epoch)) else 1e-9
-        tol = np.array([vtol_scale * slack + 1e-6] * 3 + [vtol_scale * slack * 1.2e-3 + 1e-9 + vel_rtol * vtol_scale] * 3)[: len(g)]
+        tol = np.array([vtol_scale * slack + 1e-6 + pos_atol] * 3 + [vtol_scale * slack * 1.2e-3 + 1e-9 + vel_rtol * vtol_scale + pos_atol * 1.2e-3 + vel_atol] * 3)[: len(g)]
         out.count(key=(op, inst, lab_date, lab_epoch), nontrivial=(lab_date, lab_epoch) != ("UTC", "UTC"), op=op, label=f"{lab_date}/{lab_epoch}")
         if g.shape != r.shape or not np.all(np.abs(g - r) <= tol):
             fam = f"{op}:label-dependent"
@@ -165,7 +165,11 @@ def oracle(ctx, widened):
                 for ld in SCALES:
                     rl = relabel(sv, ld)
                     got = rl.copy(frame=target)
-                    cmp(f"frame-TEME-{target}", inst, ld, "-", got, ref, dates=[rl.date])
+                    # Earth-fixed targets: the sidereal angle is computed from a Julian date held in ONE double (resolution 4e-5 s,
+                    # i.e. about 2 cm at LEO); the rounding differs with the path the date took — numerical noise, not a label effect
+                    cmp(f"frame-TEME-{target}", inst, ld, "-", got, ref, dates=[rl.date], pos_atol=0.05 if target in ("ITRF", "PEF", "TIRF") else (2e-5 if target == "GCRF" else 0.0),
+                        # TEME -> GCRF is routed through the Earth-fixed frames (tree TEME-TOD-PEF-ITRF-TIRF-CIRF-GCRF): the noise cancels to ~1e-5 m / 1e-7 m/s
+                        vel_atol=2e-7 if target == "GCRF" else 0.0)
             # ---- TLE writing: identical text
             ref_txt = str(Tle.from_orbit(orb0.propagate(d_utc).copy(form="tle"), norad_id=tle.norad_id, cospar_id=tle.cospar_id))
             for ld in SCALES:
